@@ -23,9 +23,15 @@ def random_rotation(rng):
                      [2 * (x * z - y * w), 2 * (y * z + x * w), 1 - 2 * (x * x + y * y)]])
 
 
-def build(rng, phi):
-    l1, l2, l3 = (rng.uniform(0.8, 2.5) for _ in range(3))
-    t1, t2 = (math.radians(rng.uniform(20, 160)) for _ in range(2))
+def build(rng, phi, wide=False):
+    if wide:
+        # "independent of bond lengths, bond angles ... on every non-degenerate input": far outside the chemical range but still
+        # well inside both implementations' own collinearity guards (|b1 x b2| >= 0.04 * 0.04 * sin 0.3 deg = 8e-6 > 1e-6)
+        l1, l2, l3 = (rng.choice([rng.uniform(0.04, 0.2), rng.uniform(0.2, 0.8), rng.uniform(2.5, 40.0)]) for _ in range(3))
+        t1, t2 = (math.radians(rng.choice([rng.uniform(0.3, 20), rng.uniform(160, 179.7), rng.uniform(20, 160)])) for _ in range(2))
+    else:
+        l1, l2, l3 = (rng.uniform(0.8, 2.5) for _ in range(3))
+        t1, t2 = (math.radians(rng.uniform(20, 160)) for _ in range(2))
     a = np.array([0.0, 0.0, 0.0])
     b = np.array([l1, 0.0, 0.0])
     c = b + l2 * np.array([-math.cos(t1), math.sin(t1), 0.0])
@@ -45,15 +51,17 @@ def check_case(case):
     import random
     from rnapolis.tertiary import calculate_torsion_angle_coords as t1
     from rnapolis.tertiary_v2 import calculate_torsion_angle as t2
-    phi, seed = case
+    phi, seed, *rest = case
     rng = random.Random(seed)
-    pts = build(rng, phi)
+    pts = build(rng, phi, wide=bool(rest))
     out = []
     tol = 1e-6
     r1 = t1(*pts)
     r2 = float(t2(*pts))
     if not (-math.pi - 1e-12 <= r1 <= math.pi + 1e-12) or angdiff(r1, phi) > tol:
         out.append(("torsion-v1:wrong", f"tertiary.calculate_torsion_angle_coords returned {r1} for constructed dihedral {phi}"))
+    if math.isnan(r1) or math.isnan(r2):
+        out.append(("torsion:nan", f"NaN for a non-degenerate constructed dihedral {phi}: v1 {r1}, v2 {r2}"))
     if angdiff(r2, phi) > tol:
         if angdiff(r2, -phi) <= tol and abs(math.sin(phi)) > 1e-5:
             out.append(("torsion-v2:negated", f"tertiary_v2.calculate_torsion_angle returned {r2} = -phi for constructed dihedral {phi}"))
@@ -63,9 +71,9 @@ def check_case(case):
     rev = pts[::-1]
     mir = [p * np.array([1.0, 1.0, -1.0]) for p in pts]
     for name, f, r in (("v1", t1, r1), ("v2", lambda *a: float(t2(*a)), r2)):
-        if angdiff(f(*rev), r) > tol:
+        if not angdiff(f(*rev), r) <= tol:
             out.append((f"torsion-{name}:reversal", f"{name}: reversing the point order changed the value"))
-        if angdiff(f(*mir), -r) > tol:
+        if not angdiff(f(*mir), -r) <= tol:
             out.append((f"torsion-{name}:mirror", f"{name}: mirroring did not negate the value"))
     return out
 
